@@ -372,3 +372,39 @@ def run_one(ctx: Any, seed: int, tier: str, replay: Optional[dict] = None) -> di
         "sim_time": sim_time,
         "samples": samples,
     }
+
+
+def shrink_candidates(rp: dict):
+    import copy
+
+    from vsim.shrink import drop_world_files, tape_candidates
+
+    def fix(r: dict, removed: set) -> bool:
+        cwd = r["world"]["cwd"]
+        gone = {os.path.relpath(x, cwd) for x in removed}
+        sc = r["scenario"]
+        sc["paths"] = [p for p in sc["paths"] if p not in gone]
+        sc["perm"] = [p for p in sc["perm"] if p not in gone]
+        if sc.get("victims"):
+            if any(os.path.basename(x) in sc["victims"] for x in removed):
+                return False
+        return bool(sc["paths"]) and len(r["world"]["meta"]) >= 2
+
+    yield from drop_world_files(rp, fixups=fix)
+    for t in tape_candidates(rp.get("tape") or []):
+        r = copy.deepcopy(rp)
+        r["tape"] = t
+        yield "tape", r
+    sc = rp["scenario"]
+    if sc["processes"] not in (2,):
+        r = copy.deepcopy(rp)
+        r["scenario"]["processes"] = 2
+        yield "processes=2", r
+    if sc["lookahead"] != 1:
+        r = copy.deepcopy(rp)
+        r["scenario"]["lookahead"] = 1
+        yield "lookahead=1", r
+    if sc["perm"] != sc["paths"]:
+        r = copy.deepcopy(rp)
+        r["scenario"]["perm"] = list(sc["paths"])
+        yield "unpermuted paths", r
